@@ -413,7 +413,12 @@ pub fn fam_conflict(rng: &mut Rng) -> Cfg {
     let k = rng.range(1, 4);
     for i in 0..k {
         let tag = c.term(&format!("Tag{}", i));
-        match rng.below(4) {
+        match rng.below(5) {
+            4 => {
+                let sub = fam_lr1ish(rng);
+                let st = embed(&mut c, &sub);
+                c.rule(s, vec![T(tag), N(st)]);
+            }
             0 => {
                 let e = c.nt(&format!("Amb{}", i));
                 let op = c.term(&format!("Op{}", i));
@@ -657,6 +662,45 @@ fn fam_sharedprefix(rng: &mut Rng) -> Cfg {
     c
 }
 
+/// Several nonterminals with identical right-hand sides, told apart only by context:
+/// Top -> p_i X_j s_k for a random set of (prefix, nonterminal, suffix) combinations. Depending
+/// on the combination the grammar is LALR(1), LR(1) but not LALR(1) (states with equal cores whose
+/// merge creates a reduce/reduce conflict), or not LR(1) at all.
+pub fn fam_lr1ish(rng: &mut Rng) -> Cfg {
+    let mut c = Cfg::new("lr1ish");
+    let top = c.nt("Top");
+    c.start = top;
+    let nx = rng.range(2, 3);
+    let xs: Vec<usize> = (0..nx).map(|i| c.nt(["Left", "Right", "Middle"][i])).collect();
+    let contexts = rng.range(2, 5);
+    let pool = rng.range(nx, nx + 3);
+    let ss: Vec<usize> = (0..pool).map(|i| c.term(&format!("Suf{}", i))).collect();
+    let x = c.term("Core");
+    for n in &xs {
+        c.rule(*n, vec![T(x)]);
+    }
+    if rng.chance(1, 4) {
+        let y = c.term("Core2");
+        for n in &xs {
+            c.rule(*n, vec![T(x), T(y)]);
+        }
+    }
+    // every context (a leading token) assigns each X its own follower: an injective map from
+    // the nonterminals to the pool of suffix tokens. Two contexts that swap followers are
+    // LR(1)-compatible only unmerged; a third one with fresh followers is compatible with both.
+    for i in 0..contexts {
+        let p = c.term(&format!("Pre{}", i));
+        let mut order: Vec<usize> = (0..pool).collect();
+        rng.shuffle(&mut order);
+        for (j, n) in xs.iter().enumerate() {
+            if rng.chance(9, 10) {
+                c.rule(top, vec![T(p), N(*n), T(ss[order[j]])]);
+            }
+        }
+    }
+    c
+}
+
 /// Random structural mutation of a grammar (kiki itself filters out the conflicting results).
 pub fn mutate(c: &mut Cfg, rng: &mut Rng) -> &'static str {
     if c.rules.is_empty() {
@@ -847,7 +891,7 @@ fn fam_compose(rng: &mut Rng) -> Cfg {
     c.start = s;
     let k = if big { rng.range(4, 7) } else { rng.range(2, 3) };
     for i in 0..k {
-        let which = rng.below(12);
+        let which = rng.below(13);
         let sub = base_family(rng, which);
         let tag = c.term(&format!("Mode{}", i));
         let st = embed(&mut c, &sub);
@@ -871,6 +915,7 @@ fn base_family(rng: &mut Rng, which: usize) -> Cfg {
         9 => fam_nullchain(rng),
         10 => fam_prefixnest(rng),
         11 => fam_sharedprefix(rng),
+        12 => fam_lr1ish(rng),
         _ => fam_random(rng),
     }
 }
@@ -879,10 +924,10 @@ pub const N_FAMILIES: usize = 11;
 
 /// Families meant to be accepted by kiki (random ones are filtered by kiki).
 pub fn accepted_family(rng: &mut Rng) -> Cfg {
-    let w = rng.weighted(&[3, 4, 3, 4, 2, 2, 2, 2, 3, 3, 3, 3, 8, 3, 1]);
+    let w = rng.weighted(&[3, 4, 3, 4, 2, 2, 2, 2, 3, 3, 3, 3, 2, 8, 3, 1]);
     let mut c = match w {
-        0..=12 => base_family(rng, w),
-        13 => fam_compose(rng),
+        0..=13 => base_family(rng, w),
+        14 => fam_compose(rng),
         _ => fam_wide(rng),
     };
     // structural mutations: small deviations from the textbook shapes are where
